@@ -47,3 +47,19 @@ Inductive event2 := Ev (e : event) | Restart (bens : list (box * Z)).
 Definition apply_event2 (st : state) (ev : event2) : state :=
   match ev with Ev e => apply_event st e | Restart bens => restart st bens end.
 Definition run_events2 (st : state) (evs : list event2) : state := fold_left apply_event2 evs st.
+
+(* ---------------------------------------------------------------- all four coarsening versions (version 3: Model/ESV3.v) *)
+From SG Require Import Model.ESV3.
+
+Definition area_grids4 (cp : cparams) (x : area) : list (lv * Z) :=
+  computed_grids (coarsen_results cp (a_coarse x) (a_dict x)).
+
+Definition area_interp4 (cp : cparams) (x : area) (f : list Qc -> Qc) (p : point) : Qc :=
+  combi_interp true (a_start x) (a_end x) (area_grids4 cp x) f p.
+
+Definition es_interpolate4 (st : state) (f : list Qc -> Qc) (pts : list point) : list (point * Qc) :=
+  flat_map (fun r => match find_area (fst r) (st_objs st) with
+                     | Some x => map (fun p => (p, area_interp4 (st_cp st) x f p)) (snd r)
+                     | None => []
+                     end)
+           (assign_points (current_tree st) pts).
